@@ -215,13 +215,13 @@ Definition do_abandon (p : prog) (s : state) (w : nat) : option state :=
   | _ => None
   end.
 
-(** executor.go:227-233: the idle handler is invoked only when the root future is not done after a
-    poll, i.e. some promise the executor waits for is still empty and none holds a value *)
+(** executor.go:227-233: the idle handler is invoked when the root future is not done after a poll;
+    then some promise the executor waits for is still empty (C02: a pending future is [Blocked]).
+    Nothing is assumed about awaited promises whose result the poll did not reach. *)
 Definition do_idle_enter (p : prog) (s : state) : option state :=
   match st_phase s with
   | PPoll =>
       if existsb (fun w => live p s w && chan_empty s w) (ids p)
-         && forallb (fun w => implb (live p s w) (chan_empty s w)) (ids p)
       then Some (set_phase s PTop) else None
   | _ => None
   end.
